@@ -14,6 +14,8 @@ import (
 
 var c06U = append(append([]uval{}, universe...), uval{"fn", nil, "func () { return 1 }"}, uval{"-0.5", nil, "-0.5"}, uval{"3", nil, "3"},
 	// the non-finite numbers: every comparison with NaN is false, so a bounds check written as a float comparison lets it through
+	// a string that is not a valid regular expression (every failing case is evaluated a second time inside try/except: error paths that leave state behind)
+	uval{"badre", nil, `"("`},
 	uval{"NaN", nil, "math.naN()"}, uval{"+Inf", nil, "math.inf(1)"}, uval{"-Inf", nil, "math.inf(-1)"})
 
 func isControl(err error) bool {
